@@ -445,6 +445,12 @@ func (v *Value) IterateOrder(fn func(idx, count int, key, value *Value) bool, em
 				// otherwise sorting compares nothing but the static type.
 				item = item.Elem()
 			}
+			if item.IsValid() && item.Type() == typeOfValuePtr && !item.IsNil() && item.CanInterface() {
+				// The items of an in-template list literal are *Value
+				// already; wrapped once more they would all sort as text.
+				items = append(items, item.Interface().(*Value))
+				continue
+			}
 			items = append(items, &Value{val: item})
 		}
 
